@@ -76,7 +76,7 @@ func c06Input(safe bool, op int, a, b *variants.Variant) sx.SX {
 	if op == 6 {
 		powOracle(a, b, &orc)
 	}
-	return sx.L(sx.B(safe), sx.N(op), valSX(a), valSX(b), orc)
+	return sx.L(sx.B(safe), sx.N(op), valSXin(a), valSXin(b), orc)
 }
 
 func farDate(a, b *variants.Variant) bool {
@@ -105,7 +105,8 @@ func genC06(ctx *Ctx) {
 				if farDate(a, b) {
 					continue // date-times further than 2^40 seconds from the epoch overflow time.Time itself: outside the model
 				}
-				if !ctx.Thorough && (i*131+j*17+op)%7 != int(ctx.Rnd.Int63()%7) {
+				related := a.Type() == b.Type() || (a.Type() == variants.DateTime && (b.Type() == variants.Long || b.Type() == variants.Integer))
+				if !ctx.Thorough && !(related && op >= 14 && op <= 19) && (i*131+j*17+op)%7 != int(ctx.Rnd.Int63()%7) {
 					continue
 				}
 				for _, safe := range []bool{false, true} {
